@@ -206,8 +206,12 @@ func checkChol(c cholCase) *vk.Failure {
 		b = mul(A, b)
 	}
 	// finish handles the outcome of a solve shared by the three types.
-	finish := func(x *M, err error, label string, f *vk.Failure, S *M, gam float64) *vk.Failure {
+	finish := func(x *M, err error, label string, f *vk.Failure, S *M, gam float64, cond float64) *vk.Failure {
 		vk.Class("chol/" + label)
+		if fc := errIffCond(c.Type+"-solve", err, cond); fc != nil {
+			fc.Msg += " (class " + c.Class + " " + label + ")"
+			return fc
+		}
 		if f != nil {
 			return f
 		}
@@ -316,7 +320,7 @@ func checkChol(c cholCase) *vk.Failure {
 		x, err, label, f := solveCall("solve", c.opnd, n, b, sm,
 			func(dst *mat.Dense, bm mat.Matrix) error { return ch.SolveTo(dst, bm) },
 			func(dst *mat.VecDense, bv mat.Vector) error { return ch.SolveVecTo(dst, bv) })
-		if f := finish(x, err, label, f, S, 2*float64(3*n+6)*eps); f != nil {
+		if f := finish(x, err, label, f, S, 2*float64(3*n+6)*eps, ch.Cond()); f != nil {
 			return f
 		}
 		// InverseTo: (A + dA) X = I columnwise is not what Potri does; use the
@@ -385,7 +389,7 @@ func checkChol(c cholCase) *vk.Failure {
 		x, err, label, f := solveCall("band-solve", c.opnd, n, b, sm,
 			func(dst *mat.Dense, bm mat.Matrix) error { return ch.SolveTo(dst, bm) },
 			func(dst *mat.VecDense, bv mat.Vector) error { return ch.SolveVecTo(dst, bv) })
-		return finish(x, err, label, f, S, 2*float64(3*n+6)*eps)
+		return finish(x, err, label, f, S, 2*float64(3*n+6)*eps, ch.Cond())
 
 	case "piv":
 		sk := pickSymKind(c.AKind, g.st)
@@ -472,7 +476,7 @@ func checkChol(c cholCase) *vk.Failure {
 			x, err, label, f := solveCall("piv-solve", c.opnd, n, b, sm,
 				func(dst *mat.Dense, bm mat.Matrix) error { return ch.SolveTo(dst, bm) },
 				func(dst *mat.VecDense, bv mat.Vector) error { return ch.SolveVecTo(dst, bv) })
-			return finish(x, err, label, f, So, 2*float64(3*n+6)*eps)
+			return finish(x, err, label, f, So, 2*float64(3*n+6)*eps, ch.Cond())
 		}
 		return nil
 	}
